@@ -49,10 +49,13 @@ def unflattenRC (r c : Nat) (l : List Int) : List (List Int) :=
 /-- A request may carry the history of its thread: `@after <mis-sized call> @ <request>` means that the request was made
 immediately after the mis-sized call (which may have panicked half way) on a fresh thread.  Model and reference are
 functions of the request alone, so the history is dropped here: any influence of it is a mismatch. -/
-def stripCtx (ws : List String) : List String :=
+def stripCtx1 (ws : List String) : List String :=
   match ws with
-  | "@after" :: rest => (rest.dropWhile (· ≠ "@")).drop 1
-  | _ => ws
+  | w :: rest => if w.startsWith "@" && w.length > 1 then (rest.dropWhile (· ≠ "@")).drop 1 else ws
+  | [] => ws
+
+/-- histories nest at most twice: `@seq s k @ @after <call> @ <request>` -/
+def stripCtx (ws : List String) : List String := stripCtx1 (stripCtx1 ws)
 
 /-- mis-sized calls: what the model says about them (`panic`, or the destination / vector / matrix afterwards) -/
 def handleFault (op : String) (rest : List String) : String :=
@@ -108,6 +111,14 @@ def handle (line : String) : String :=
   | _ => "bad-op"
 
 
+/-- which history a request carries (only used in the text of a failure) -/
+def histTag (req : String) : String :=
+  match words req with
+  | "@seq" :: _ => "-late-in-a-long-same-thread-history"
+  | "@after" :: "newhist" :: _ => "-after-many-new-calls-on-the-same-thread"
+  | "@after" :: _ => "-after-a-mis-sized-call-on-the-same-thread"
+  | _ => ""
+
 /-- (B): the property evaluated directly on the implementation's answer. -/
 def specCheck (line : String) : String :=
   match line.splitOn "\t" with
@@ -118,7 +129,7 @@ def specCheck (line : String) : String :=
     | "new" :: rest =>
       match nats? rest with
       | some idxs => if Spec.Perm.expectedNew idxs = ans.trimAscii.toString then "ok"
-                     else s!"fail new expected {Spec.Perm.expectedNew idxs}"
+                     else s!"fail new expected {Spec.Perm.expectedNew idxs} {histTag req}"
       | none => "fail bad-request"
     | op0 :: rest =>
       -- mis-sized vectors / matrices are outside the property's quantifier (only (A) speaks about them)
@@ -148,7 +159,7 @@ def specCheck (line : String) : String :=
             | "matrix" => o = ((List.range n).flatMap fun i => (List.range n).map fun j => if j = idxs[i]! then (1:Int) else 0)
             | "transform" => o = ((List.range n).flatMap fun i => (List.range n).map fun j => v[idxs[i]! * n + idxs[j]!]!)
             | _ => false
-          let hist := if (words req).head? = some "@after" then "-after-a-mis-sized-call-on-the-same-thread" else ""
+          let hist := histTag req
           if good then "ok" else s!"fail {op0} result-differs-from-reference{hist}"
       | some _, some _, _ => s!"fail {op} valid-permutation-operation-did-not-return"
       | _, _, _ => "fail bad-request"
